@@ -698,7 +698,7 @@ class Tracer:
         return None
 
     def expand(self, caller, ee, d, stack):
-        if ee.k not in ('call', 'construct'):
+        if ee.k not in ('call', 'construct') and not (ee.k == 'dtor' and ee.get('callee_key')):
             return None
         key = ee.get('callee_key')
         if d >= self.depth:
